@@ -101,9 +101,9 @@ ASSUMPTIONS = ['avg_pool2d: uint8 data, so every float32 partial sum is an integ
 CLAIM = dict(
  text='index::shape_pool2d / slice_pool2d equal PyTorch\'s output-size formula (incl. "the last ceil-mode window must start inside the input") and window slices for all N,C in 1..2, H,W in 1..7, kernel 1..3, '
       'stride 1..3, both ceil modes (symbolic). view::max_pool2d and avg_pool2d return PyTorch\'s shape and the max / mean over the window truncated at the border for every enumerated (H,W,kernel,stride,ceil) '
-      'with all uint8 data and the output index symbolic. The output shape of view::conv1d / conv2d through the real convnd pipeline equals floor((n + 2p - d(k-1) - 1)/s) + 1 for symbolic extents, kernel, '
-      'stride, dilation (and padding in the thorough tier), batch 1 and equal dilation per axis (two findings outside); sliding_window, expand and pad index maps equal their definitions; '
-      'result shapes of softmax/softmin/linear/distances (and the norms in the thorough tier) are the input-derived shapes (structural). Thorough tier only: conv1d ELEMENTS equal the cross-correlation sum '
+      'with all uint8 data (max_pool2d also with SIGNED int8 data: negative maxima) and the output index symbolic; the same holds for the pooling views evaluated THROUGH their extracted function composition (fn::apply(get_function_composition(v), operands), what the device kernels evaluate). The output shape of view::conv1d / conv2d through the real convnd pipeline equals floor((n + 2p - d(k-1) - 1)/s) + 1 for symbolic extents, kernel, '
+      'stride, dilation (and padding in the thorough tier), batch 1..2 and every dilation pair (the two defects found here - batch > 1, dilation order - are repaired in /repo); sliding_window, expand and pad index maps equal their definitions; '
+      'result shapes of softmax/softmin/linear/distances (and the norms in the thorough tier) are the input-derived shapes (structural). Thorough tier only: softmax / softmin ELEMENTS structurally (IEEE + - / and expf uninterpreted on both sides: the slice maximum is subtracted before exp, the right elements are summed in order, then divided) at constant tiny shapes; conv1d ELEMENTS equal the cross-correlation sum '
       '(mod 256, uint8 data and output index symbolic) for five constant tiny cases: plain, stride 2, two input channels, bias, dilation 2.',
  note='Pooling elements: quick = 12 tuples incl. overhanging ceil windows and the formerly failing (4,4),k=(2,1),s=(2,2),ceil case (now repaired in /repo: no exclusion needed); thorough = all H,W 1..5, k 1..3, s 1..3, ceil 0/1 (864 tuples). '
       'Trusted: clang-14 -O1 lowering, engine/ll2c.py, CBMC; validated per run by gate and witness assertions.')
